@@ -130,11 +130,11 @@ def _probe(nas, x, st, dspec, other, with_export=True):
     obs['sd'] = F.sd_hash(nas)
     with torch.no_grad():
         if st['spec'] == 'orig':
-            obs['cost_now'] = [round(float(nas.get_cost('a')), 4), round(float(nas.get_cost('b')), 4)]
+            obs['cost_now'] = [F.canon(float(nas.get_cost('a'))), F.canon(float(nas.get_cost('b')))]
         else:
-            obs['cost_now'] = [round(float(nas.cost), 4)]
+            obs['cost_now'] = [F.canon(float(nas.cost))]
             nas.cost_specification = dict(dspec)
-        obs['cost_orig'] = [round(float(nas.get_cost('a')), 4), round(float(nas.get_cost('b')), 4)]
+        obs['cost_orig'] = [F.canon(float(nas.get_cost('a'))), F.canon(float(nas.get_cost('b')))]
     torch.manual_seed(31337)      # summary() may draw a (Gumbel) sample for reporting: the harness owns the RNG
     obs['summary'] = F.canon(nas.summary())
     if not with_export:
